@@ -46,7 +46,7 @@ func (c *constExpr) Exit(node *Node) {
 				case *NilNode:
 					param = nil
 				case *IntegerNode:
-					param = a.Value
+					param = integerValue(a)
 				case *FloatNode:
 					param = a.Value
 				case *BoolNode:
@@ -74,4 +74,39 @@ func (c *constExpr) Exit(node *Node) {
 			patch(constNode)
 		}
 	}
+}
+
+// integerValue returns the value the compiled program pushes for an integer
+// literal: the checker may have retyped the literal to the parameter's type
+// (a float64, an int64, ...), and the function has to be called with that.
+func integerValue(node *IntegerNode) interface{} {
+	t := node.Type()
+	if t == nil {
+		return node.Value
+	}
+	switch t.Kind() {
+	case reflect.Float32:
+		return float32(node.Value)
+	case reflect.Float64:
+		return float64(node.Value)
+	case reflect.Int8:
+		return int8(node.Value)
+	case reflect.Int16:
+		return int16(node.Value)
+	case reflect.Int32:
+		return int32(node.Value)
+	case reflect.Int64:
+		return int64(node.Value)
+	case reflect.Uint:
+		return uint(node.Value)
+	case reflect.Uint8:
+		return uint8(node.Value)
+	case reflect.Uint16:
+		return uint16(node.Value)
+	case reflect.Uint32:
+		return uint32(node.Value)
+	case reflect.Uint64:
+		return uint64(node.Value)
+	}
+	return node.Value
 }
